@@ -17,6 +17,26 @@ CONFIGS = {
                  dict(lanes=3, queue=2, tasks=4, producers=2), dict(lanes=3, queue=0, tasks=3, producers=1), dict(lanes=1, queue=2, tasks=3, producers=2)],
 }
 BMC_DEPTH = {'quick': 14, 'thorough': 18}
+STUCK_DEPTH = {'quick': 22, 'thorough': 26}   # depth of the search for a schedule from Init into a stuck state the solver found under the invariant
+
+def configs_for(prop, tier):
+    """C08 quantifies over all assignments of tasks to lanes: every configuration with >= 2 lanes is analysed with everything
+    pushed to lane 0 and (the first one at the quick tier, the first three at the thorough tier) with free lane choice.
+    C06 / C14 quantify over concurrent producers: the quick tier adds one small two-producer configuration."""
+    base = [dict(c) for c in CONFIGS[tier]]
+    if prop == 'C08':
+        multi = [c for c in base if c['lanes'] >= 2]
+        return [dict(c, onelane=1) for c in base] + [dict(c, onelane=0) for c in multi][:(1 if tier == 'quick' else 3)]
+    if prop in ('C06',) and tier == 'quick':
+        base.append(dict(lanes=1, queue=1, tasks=2, producers=2))
+    if prop == 'C14':
+        # the bound PendingTask <= laneSize x (queueSize+1) can only be exceeded with more tasks than it allows: one running + 2 waiting on 1 x 0
+        base.append(dict(lanes=1, queue=0, tasks=3, producers=1))
+    return base
+
+def ordered(cfgs):
+    """small systems first: a violation found there spares the expensive schedule searches in the larger ones"""
+    return sorted(cfgs, key=lambda c: (c['lanes'] * 3 + c['tasks'] * 2 + c['queue'] + c['producers']))
 
 def extract(prop, cfg, extra):
     out = '/tmp/vx_ts_%s_%d.json' % (prop, os.getpid())
@@ -64,9 +84,9 @@ def native_scenario(test):
     finally:
         shutil.rmtree(tmp, ignore_errors=True)
 
-SCENARIOS = {'C06': ['TestVxStuck', 'TestVxExactlyOnce'], 'C07': ['TestVxShutdown'], 'C08': ['TestVxHeadOfLine', 'TestVxPanics'], 'C14': ['TestVxPanics', 'TestVxExactlyOnce']}
+SCENARIOS = {'C06': ['TestVxStuck', 'TestVxExactlyOnce'], 'C07': ['TestVxShutdown'], 'C08': ['TestVxHeadOfLine', 'TestVxHeadOfLineAllBusy', 'TestVxRejectIdle', 'TestVxPanics'], 'C14': ['TestVxPanics', 'TestVxExactlyOnce']}
 
-NATIVE_FOR = {'accepted task never started: stuck state': 'TestVxStuck', 'head-of-line blocking: idle worker while an accepted task waits': 'TestVxHeadOfLine',
+NATIVE_FOR = {'push blocked (left to time out) while a worker is idle and no accepted task waits': 'TestVxRejectIdle', 'accepted task never started: stuck state': 'TestVxStuck', 'head-of-line blocking: idle worker while an accepted task waits': 'TestVxHeadOfLine.*',
               'lane goroutine left behind after cancel': 'TestVxShutdown', 'producer stays blocked after cancel': 'TestVxShutdown'}
 
 def main():
@@ -81,9 +101,10 @@ def main():
     native_done = {}
     validated = [0]
     unsettled = []
+    CFGS = ordered(configs_for(prop, tier))
     def one_config(cfg):
         nonlocal states, transitions
-        extra = dict(status=2 if prop == 'C14' else 0, wait=1 if prop == 'C07' else 0, onelane=1 if prop == 'C08' else 0)
+        extra = dict(status=2 if prop == 'C14' else 0, wait=1 if prop == 'C07' else 0, onelane=cfg.get('onelane', 0))
         ts, rc = extract(prop, cfg, extra)
         for n in ts.get('notes') or []:
             inconclusive.append('%s: %s' % (cfg, n))
@@ -94,7 +115,7 @@ def main():
         m = Model(ts, spec, panics=(prop == 'C14'))
         ck = Checker(m, timeout_ms=300000)
         states += sum(p['nlocs'] for p in m.procs); transitions += len(m.steps)
-        cname = 'L%dQ%dN%dP%d' % (cfg['lanes'], cfg['queue'], cfg['tasks'], cfg['producers'])
+        cname = 'L%dQ%dN%dP%d' % (cfg['lanes'], cfg['queue'], cfg['tasks'], cfg['producers']) + ('' if prop != 'C08' else ('-lane0' if cfg.get('onelane') else '-anylane'))
         res = {'config': cname, 'steps': len(m.steps), 'locations': [p['nlocs'] for p in m.procs]}
         inv = lambda s: spec.inv(m, s)
         nopin = lambda s: And(*[Not(x) for x in m.pinned])
@@ -102,7 +123,7 @@ def main():
         fails = ck.induct(inv, cname + ':inv')
         res['induction_failures'] = [(f[0], str(f[1])) for f in fails]
         K = BMC_DEPTH[tier]
-        safe = {'C06': spec.safe_c06, 'C07': spec.safe_c07, 'C08': spec.safe_c08, 'C14': spec.safe_c06}[prop]
+        safe = {'C06': spec.safe_c06, 'C07': spec.safe_c07, 'C08': spec.safe_c08, 'C14': spec.safe_c14}[prop]
         # 2. invariant implies the safety predicate
         s = m.state('x')
         r, mod = ck.solve([inv(s), Not(safe(m, s))], cname + ':inv=>safe')
@@ -110,6 +131,7 @@ def main():
             fails.append(('inv=>safe', r, None))
         # 3. progress / quiescence obligations
         prog_fail = []
+        stuck_pred = {}
         if prop in ('C06', 'C08', 'C07'):
             s = m.state('q')
             g = s['g']
@@ -117,9 +139,13 @@ def main():
             no_internal = And(*[Not(m.enabled(st, s)) for st in internal])
             canc = spec.cancelled(m, s)
             pend = Or(*[And(g['acc%d' % k], g['st%d' % k] == 0) for k in range(spec.N)])
+            def pend_of(s_): return Or(*[And(s_['g']['acc%d' % k], s_['g']['st%d' % k] == 0) for k in range(spec.N)])
+            def no_internal_of(s_): return And(*[Not(m.enabled(st, s_)) for st in internal])
             if prop == 'C06':
                 r, mod = ck.solve([inv(s), nopin(s), Not(canc), pend, no_internal], cname + ':no stuck accepted task (live ctx, tasks return)')
-                if r != unsat: prog_fail.append(('accepted task never started: stuck state', r, ck.describe(mod, s) if mod else None))
+                if r != unsat:
+                    prog_fail.append(('accepted task never started: stuck state', r, ck.describe(mod, s) if mod else None))
+                    stuck_pred['accepted task never started: stuck state'] = lambda s_: And(nopin(s_), Not(spec.cancelled(m, s_)), pend_of(s_), no_internal_of(s_))
             if prop == 'C08':
                 npinned = count(m.pinned)
                 idle = []
@@ -127,8 +153,35 @@ def main():
                     if spec.role(m, pi) == 'startWorker':
                         bl = {t['from'] for t in m.procs[pi]['trans'] if t['ev']['kind'] == 'select' and t['ev'].get('blocking')}
                         idle.append(Or(*[s['pc'][pi] == l for l in bl]))
+                def idle_of(s_):
+                    out = []
+                    for pi in range(len(m.procs)):
+                        if spec.role(m, pi) == 'startWorker':
+                            bl = {t['from'] for t in m.procs[pi]['trans'] if t['ev']['kind'] == 'select' and t['ev'].get('blocking')}
+                            out.append(Or(*[s_['pc'][pi] == l for l in bl]))
+                    return Or(*out)
                 r, mod = ck.solve([inv(s), ULT(npinned, spec.L), Not(canc), pend, Or(*idle), no_internal], cname + ':no head-of-line blocking (idle worker, waiting task)')
-                if r != unsat: prog_fail.append(('head-of-line blocking: idle worker while an accepted task waits', r, ck.describe(mod, s) if mod else None))
+                if r != unsat:
+                    prog_fail.append(('head-of-line blocking: idle worker while an accepted task waits', r, ck.describe(mod, s) if mod else None))
+                    stuck_pred['head-of-line blocking: idle worker while an accepted task waits'] = lambda s_: And(ULT(count(m.pinned), spec.L), Not(spec.cancelled(m, s_)), pend_of(s_), idle_of(s_), no_internal_of(s_))
+                # a push is not left to time out while a worker is idle and nothing waits: a producer blocked in PushTask's select whose
+                # send cannot proceed, with the lane goroutines at rest, no accepted task waiting and an idle worker, must not exist
+                def blocked_producer(s_):
+                    out = []
+                    for pi in range(len(m.procs)):
+                        if spec.role(m, pi) != 'producer': continue
+                        for l in {t['from'] for t in m.procs[pi]['trans'] if t['ev']['kind'] == 'select' and t['ev'].get('blocking')}:
+                            tr_ = m.procs[pi]['trans']
+                            sends = [st for st in m.steps if st['kind'] == 'rdv' and st['p'] == pi and tr_[st['t']]['from'] == l]
+                            buf = [st for st in m.steps if st['kind'] == 'solo' and st['p'] == pi and tr_[st['t']]['from'] == l and tr_[st['t']]['ev']['kind'] == 'select'
+                                   and tr_[st['t']]['ev']['outcome'] >= 0 and tr_[st['t']]['ev']['cases'][tr_[st['t']]['ev']['outcome']]['dir'] == 'send']
+                            out.append(And(s_['pc'][pi] == l, *[Not(m.enabled(st, s_)) for st in sends + buf]))
+                    return Or(*out) if out else BoolVal(False)
+                r, mod = ck.solve([inv(s), ULT(npinned, spec.L), Not(canc), Not(pend), Or(*idle), no_internal, blocked_producer(s)], cname + ':no push left to time out while a worker is idle and nothing waits')
+                if r != unsat:
+                    what = 'push blocked (left to time out) while a worker is idle and no accepted task waits'
+                    prog_fail.append((what, r, ck.describe(mod, s) if mod else None))
+                    stuck_pred[what] = lambda s_: And(ULT(count(m.pinned), spec.L), Not(spec.cancelled(m, s_)), Not(pend_of(s_)), idle_of(s_), no_internal_of(s_), blocked_producer(s_))
             if prop == 'C07':
                 lane = spec.lane_procs(m)
                 allexit = And(*[s['pc'][pi] == m.procs[pi]['exit'] for pi in lane])
@@ -149,7 +202,7 @@ def main():
             wit.append((name, str(r), len(tr) if tr else 0))
             if tr and len(samples) < 4: samples.append({'config': cname, 'witness': name, 'trace': tr})
             return r
-        if cfg == CONFIGS[tier][0]:
+        if cfg == CFGS[0]:
             reach('a task started', lambda s: s['g']['st0'] == 1, min(K, 12))
             if prop == 'C14':
                 reach('a task panicked and lastPanic observed', lambda s: s['g']['pan0'], min(K, 14))
@@ -176,18 +229,31 @@ def main():
                     races.append({'cell': a[2], 'a': m.label(sa), 'b': m.label(sb), 'trace': ['(state satisfying the inductive invariant in which both accesses are enabled)', str(ck.describe(mod, sx)) if mod else '']})
         res['races'] = races
         # verdicts: a failed obligation is confirmed by BMC from Init before it becomes a violation
-        if fails or prog_fail:
-            r, tr = ck.bmc(K, lambda s: Not(safe(m, s)), cname + ':bmc:safety')
+        if (fails or prog_fail) and violations:
+            notes.append('%s: %d obligation(s) failed; no schedule searched because a violation was already established in %s' % (cname, len(fails) + len(prog_fail), violations[0]['config']))
+        elif fails or prog_fail:
+            for kk in (K, K + 3, K + 6):   # iterative deepening; stops at the first schedule or the first unknown
+                r, tr = ck.bmc(kk, lambda s: Not(safe(m, s)), cname + ':bmc:safety:%d' % kk)
+                if r != unsat: break
+            Kd = kk
             if r == sat:
                 violations.append({'config': cname, 'what': 'safety predicate violated', 'trace': tr})
             else:
                 for f in fails:
-                    unsettled.append('%s: obligation %s failed and BMC found no trace within %d steps' % (cname, f[0], K))
-                    notes.append('%s: induction not established at %s (%s); no violating trace within %d steps: claim reduced to BMC depth %d' % (cname, f[0], f[1], K, K))
+                    unsettled.append('%s: obligation %s failed and BMC found no trace within %d steps (%s)' % (cname, f[0], Kd, r))
+                    notes.append('%s: induction not established at %s (%s); no violating trace within %d steps (%s): claim reduced to BMC depth %d' % (cname, f[0], f[1], Kd, r, Kd if r == unsat else Kd - 3))
             for pf in prog_fail:
                 # is such a stuck state reachable from Init?
                 notes.append('%s: progress obligation failed under the invariant: %s (%s)' % (cname, pf[0], pf[1]))
                 unsettled.append('%s: %s' % (cname, pf[0]))
+                if pf[0] in stuck_pred:
+                    for kk in (12, 16, STUCK_DEPTH[tier]):   # iterative deepening: short schedules are found quickly
+                        r2, tr2 = ck.bmc(kk, stuck_pred[pf[0]], cname + ':bmc:stuck:%d:' % kk + pf[0][:30])
+                        if r2 != unsat: break
+                    if r2 == sat:
+                        violations.append({'config': cname, 'what': pf[0] + ' (schedule from Init found by BMC)', 'trace': tr2})
+                        continue
+                    notes.append('%s: no schedule into such a state within %d steps (%s)' % (cname, STUCK_DEPTH[tier], r2))
                 test = NATIVE_FOR.get(pf[0])
                 if test and test not in native_done:
                     native_done[test] = native_scenario(test)
@@ -207,7 +273,7 @@ def main():
         print('config %s: %d steps, %d obligations (%d unsat), induction failures %d, progress failures %d, races %d, solver %.1fs' % (
             cname, len(m.steps), res['obligations'], res['unsat'], len(fails), len(prog_fail), len(races), ck.stats['solver_s']))
         sys.stdout.flush()
-    for cfg in CONFIGS[tier]:
+    for cfg in CFGS:
         try:
             one_config(cfg)
         except Exception as ex:
